@@ -35,6 +35,22 @@ def main(argv):
         for profile, feats in (("dev", ()), ("release", ()), ("dev", ("full",)), ("release", ("full",)),
                                ("release", ("packed",)), ("o0-nochk", ()), ("release", ("full", "packed"))):
             B.build(profile, feats, quiet=False)
+        # sanitizer / interpreter builds (warm the caches; a failure here is not fatal for setup)
+        import subprocess
+        for profile, feats in (("release", ()), ("release", ("full", "packed")), ("release", ("full",))):
+            try:
+                B.build(profile, feats, kind="asan", quiet=False)
+            except B.BuildError as e:
+                print("warning: asan build failed: %s" % str(e)[-300:])
+        tiny = os.path.join(B.WORK, "setup.req")
+        os.makedirs(B.WORK, exist_ok=True)
+        open(tiny, "w").write("parse S31\n")
+        for feats, rel in (((), True), (("full", "packed"), False), ((), False)):
+            cmd, env = B.miri_cmd(feats, release=rel)
+            env["MIRIFLAGS"] = "-Zmiri-disable-isolation"
+            t1 = time.time()
+            p = subprocess.run(cmd + ["--", tiny], env=env, cwd=B.DRIVER, stdout=subprocess.PIPE, stderr=subprocess.PIPE, text=True)
+            print("miri warm-up (features=%s release=%s): rc=%d in %.1fs" % (",".join(feats) or "-", rel, p.returncode, time.time() - t1))
         print("setup done in %.1fs" % (time.time() - t0))
         return 0
     if cmd == "replay":
